@@ -168,9 +168,9 @@ def topo_events(path, kind):
     label, par, depth = _components(n, [b for b in bonds])
     try:
         val = bool(are_connected(mt.atoms))
-        ev.append({'op': 'conn', 'value': val, 'label': label, 'parent': par, 'depth': depth})
+        ev.append({'op': 'conn', 'value': val, 'exc': '', 'label': label, 'parent': par, 'depth': depth})
     except RecursionError:
-        ev.append({'op': 'conn', 'value': 'RecursionError', 'label': label, 'parent': par, 'depth': depth})
+        ev.append({'op': 'conn', 'value': False, 'exc': 'RecursionError', 'label': label, 'parent': par, 'depth': depth})
     cp = mt.copy()
     equal = bool(cp == mt and cp is not mt and all(x is not y for x, y in zip(cp.atoms, mt.atoms)))
     before = [sorted(a.bonds) for a in mt.atoms]
@@ -439,7 +439,7 @@ def check(run, props):
                 t = json.loads(line)
                 traces[t['tid']] = t
     verdicts = validate_batches('Trace_Itp', TRACE_CFG, partfiles, run.scratch, timeout=900 if run.quick else 3000, run=run, heap='6g')
-    c15_clauses = {'molecule_name', 'atoms_in_file_order', 'bond_graph', 'bonds_symmetric', 'atom_count',
+    c15_clauses = {'connectivity_test_answers', 'molecule_name', 'atoms_in_file_order', 'bond_graph', 'bonds_symmetric', 'atom_count',
                    'connected_iff_one_component', 'copy_equal', 'copy_independent'}
     kinds = {}
     for tid, tr in traces.items():
